@@ -65,7 +65,7 @@ var SubSelections = []struct {
 // Event is the reflection flavour of a published event.
 type Event struct {
 	ID     int
-	Msg    string
+	Msg    interface{}
 	Tag    string
 	Nested *Event
 }
@@ -76,10 +76,33 @@ func NewEvent(id int) *Event {
 		Nested: &Event{ID: id + 1000, Msg: "m" + strconv.Itoa(id+1000), Tag: "t" + strconv.Itoa(id+1000)}}
 }
 
+// BadEvent tells whether event n is one whose msg field cannot be resolved
+// (worlds with BadEvents only): applying a subscriber's selection to it yields
+// null for msg plus an error, which is not a failed delivery.
+func BadEvent(n int) bool { return n%5 == 3 }
+
+type unprintable struct{ X int }
+
+// ExpectFor is the message subscriber selection selIndex must receive for
+// event id; resolveErr tells whether applying the selection hits the field
+// that cannot be resolved.
+func ExpectFor(selIndex, id int, bad bool) (msg string, resolveErr bool) {
+	msg = SubSelections[selIndex].Expect(id)
+	if !bad {
+		return msg, false
+	}
+	good := `"msg":"m` + strconv.Itoa(id) + `"`
+	if !strings.Contains(msg, good) {
+		return msg, false
+	}
+	return strings.Replace(msg, good, `"msg":null`, 1), true
+}
+
 // EvRes is the Resolver flavour of a published event.
 type EvRes struct {
 	ID    int
 	Depth int
+	Bad   bool
 }
 
 // Resolve implements ggql.Resolver.
@@ -88,6 +111,9 @@ func (e *EvRes) Resolve(field *ggql.Field, args map[string]interface{}) (interfa
 	case "id":
 		return e.ID, nil
 	case "msg":
+		if e.Bad {
+			return nil, errors.New("msg of event " + strconv.Itoa(e.ID) + " is not available")
+		}
 		return "m" + strconv.Itoa(e.ID), nil
 	case "tag":
 		return "t" + strconv.Itoa(e.ID), nil
@@ -167,6 +193,9 @@ type SubWorld struct {
 	Subs map[int]*SimSub
 	// ResolverEvents chooses the event flavour published through the mutation.
 	ResolverEvents bool
+	// BadEvents makes the msg field of the events with BadEvent(n) fail to
+	// resolve (resolver error / value that cannot be coerced to String).
+	BadEvents bool
 }
 
 type subQuery struct{}
@@ -291,10 +320,15 @@ func (w *SubWorld) SubscriptionDoc(selIndex int, topic string) (src, op string) 
 // Publish publishes event n on topic.
 func (w *SubWorld) Publish(topic string, n int) (int, error) {
 	var ev interface{}
+	bad := w.BadEvents && BadEvent(n)
 	if w.ResolverEvents {
-		ev = &EvRes{ID: n}
+		ev = &EvRes{ID: n, Bad: bad}
 	} else {
-		ev = NewEvent(n)
+		e := NewEvent(n)
+		if bad {
+			e.Msg = unprintable{n}
+		}
+		ev = e
 	}
 	return w.Root.AddEvent(topic, ev)
 }
